@@ -42,6 +42,8 @@ type c19Case struct {
 	TLS12    bool   `json:"tls12"`  // peer limits itself to TLS 1.2
 	Hint     bool   `json:"hint"`   // client role of the peer: stock behaviour (respect the CA hint) instead of sending regardless
 	SerialNo int64  `json:"serial"` // randomises key material / serials
+	// Rotated: the CA file path held another CA's bundle before, endpoints were built from it, then the file was replaced
+	Rotated bool `json:"rotated,omitempty"`
 }
 
 var c19ClientPeers = []string{"A_leaf", "A_via_intermediate", "self_signed", "B_leaf", "A_expired", "A_expired_90s_ago", "A_not_yet_valid", "A_valid_in_90s", "A_server_auth_only", "none"}
@@ -147,6 +149,14 @@ func c19Setup(t *testing.T, c c19Case) *c19PKI {
 	p.ownCert, p.ownKey = filepath.Join(dir, "own.pem"), filepath.Join(dir, "own.key")
 	_ = os.WriteFile(p.ownCert, cp, 0o600)
 	_ = os.WriteFile(p.ownKey, kp, 0o600)
+	if c.Rotated {
+		// CA rotation: the same path held another CA's bundle a moment ago and endpoints were built from it in this
+		// process; the endpoint under test is built after the file was replaced and must follow the file
+		_ = os.WriteFile(p.bundlePath, p.caB.pem, 0o600)
+		_, _ = GetServerTLSConfig(TLSConfig{CertificatePath: p.ownCert, KeyPath: p.ownKey, RemoteCAPath: p.bundlePath}, log.NewNoopLogger())
+		_, _ = GetClientTLSConfig(TLSConfig{RemoteCAPath: p.bundlePath, CAServerName: p.serverName})
+		_ = os.WriteFile(p.bundlePath, bundle, 0o600)
+	}
 	return p
 }
 
@@ -442,6 +452,7 @@ func TestVF_C19_Matrix(t *testing.T) {
 			continue
 		}
 		c.SerialNo = vfshared.Seed()%100000 + int64(i)*100
+		c.Rotated = i%2 == 1
 		run(c)
 	}
 	// fail-closed construction
@@ -518,7 +529,7 @@ func TestVF_C19_Random(t *testing.T) {
 	rapid.Check(t, func(rt *rapid.T) {
 		c := c19Case{Role: rapid.SampledFrom([]string{"server", "client"}).Draw(rt, "role"), Verify: rapid.IntRange(0, 3).Draw(rt, "verify") > 0,
 			OwnCert: rapid.Bool().Draw(rt, "own"), Bundle: rapid.SampledFrom([]string{"A", "A+other"}).Draw(rt, "bundle"), RSA: rapid.IntRange(0, 5).Draw(rt, "rsa") == 0,
-			TLS12: rapid.Bool().Draw(rt, "tls12"), SerialNo: rapid.Int64Range(1000, 1<<40).Draw(rt, "serial")}
+			TLS12: rapid.Bool().Draw(rt, "tls12"), SerialNo: rapid.Int64Range(1000, 1<<40).Draw(rt, "serial"), Rotated: rapid.Bool().Draw(rt, "rotated")}
 		if c.Role == "server" {
 			c.Peer = rapid.SampledFrom(c19ClientPeers).Draw(rt, "peer")
 			c.Hint = rapid.IntRange(0, 3).Draw(rt, "hint") == 0
